@@ -265,7 +265,17 @@ def c07c(ck, prog):
         ck.ob(R, "gate:decodes-the-payload", ok, f.loc(c.sp), "" if ok else "from_body is given `%s`, not the request payload" % src, how=src[:50])
         me = [x for x in f.calls_to(r"Result::<T, E>::map_err$")]
         ok = any("reject" in decision.describe_deep(f, x.args[1], 2) and paths.root_call(f, x.args[0], through=r"$^") is not None and paths.root_call(f, x.args[0], through=r"$^").bb == c.bb for x in me)
-        ck.ob(R, "gate:error=>400", ok, f.loc(c.sp), "" if ok else "a decoding failure is not mapped through reject() (400 Bad Request)", how="from_body(..).map_err(reject)")
+        if not ok:
+            # the same mapping written as a match: `Err(msg) => Err(reject(msg))` with msg the error of this from_body
+            rej = [x for x in f.calls() if x.name == "reject" and x.args and re.search(r"from_body\(.*\)@Err", decision.describe_deep(f, x.args[0], 6))]
+            err_vals = []
+            for bb, kind, pl in paths.ret_sites(f):
+                if kind == "Some" and isinstance(pl, list) and pl[0] == "agg":
+                    for leaf in paths.leaf_values(f, pl[2][0]):
+                        if leaf[0] == "other" and isinstance(leaf[1], list) and leaf[1][0] == "agg" and leaf[1][1].get("variant") == "Err":
+                            err_vals.append(decision.describe_deep(f, leaf[1][2][0], 4))
+            ok = bool(rej) and bool(err_vals) and all(d.startswith("reject(") for d in err_vals)
+        ck.ob(R, "gate:error=>400", ok, f.loc(c.sp), "" if ok else "a decoding failure is not mapped through reject() (400 Bad Request)", how="from_body(..).map_err(reject) / Err(msg) => Err(reject(msg))")
         rj = prog.one(r"from_request::\{?.*reject$|FromRequest<'req> for B>::from_request::reject$")
         ok = bool(rj.calls_to(r"Response>::BadRequest$"))
         ck.ob(R, "reject=400", ok, rj.loc(None), "" if ok else "reject() does not build 400 Bad Request", how="Response::BadRequest()")
@@ -320,7 +330,7 @@ def c07d(ck, prog):
     ok = len(fp) == 1
     if ok:
         src = decision.describe_deep(f, fp[0].args[0], 6)
-        ok = "percent_decode_utf8(arg1)" in src and "@Continue" in src
+        ok = "percent_decode_utf8(arg1)" in src and ("@Continue" in src or "@Ok" in src)
         ck.ob(R, "from_param-gets-decoded-text", ok, f.loc(fp[0].sp), "" if ok else "from_param receives `%s`, expected the successful percent_decode_utf8 of the raw segment" % src[:80], how="from_param(percent_decode_utf8(raw)?)")
         dec = f.calls_to(r"percent_encoding::percent_decode_utf8$")
         hit = dec and paths.has_fact(f, prog, fp[0].bb, lambda fa: fa.kind == "variant" and fa.allowed == {"Ok"} and fa.steps and fa.steps[-1][0] == "call" and fa.steps[-1][1].name in ("map_err", "percent_decode_utf8"))
